@@ -67,6 +67,45 @@ func (x *Executor) execCall(fr *Frame, st *State, reach string, call *ssa.CallCo
 	return x.callStatic(fr, st, reach, callee, bind, args, resTy)
 }
 
+// atCallObligations: the enclosing contract may constrain the arguments of calls to a named callee.
+func (x *Executor) atCallObligations(fr *Frame, st *State, reach string, callee *ssa.Function, args []Val) {
+	if fr.con == nil || len(fr.con.AtCall) == 0 {
+		return
+	}
+	_, key := funcKey(callee)
+	cls := fr.con.AtCall[key]
+	if cls == nil {
+		cls = fr.con.AtCall[callee.Name()]
+	}
+	if cls == nil {
+		return
+	}
+	u := x.u
+	vars := map[string]Val{}
+	for i, p := range callee.Params {
+		if i < len(args) {
+			vars[p.Name()] = args[i]
+		}
+	}
+	var pkg *types.Package
+	if callee.Pkg != nil {
+		pkg = callee.Pkg.Pkg
+	} else if fr.fn.Pkg != nil {
+		pkg = fr.fn.Pkg.Pkg
+	}
+	env := &Env{x: x, u: u, vars: vars, bound: map[string]Val{}, st: st, old: x.entry, pkg: pkg}
+	for _, cl := range cls {
+		t, err := env.Eval(cl.E)
+		o := &Obligation{Name: fmt.Sprintf("%s#atcall:%s:requires%s", fr.prefix, key, clauseLabel(cl)), Kind: "ensures", Clause: "at call of " + key + ": " + cl.Src, For: cl.For}
+		if err != nil {
+			o.Fail = err.Error()
+		} else {
+			o.Goal = fmt.Sprintf("(=> %s %s)", reach, t.T)
+		}
+		u.addObl(o)
+	}
+}
+
 func funcKey(fn *ssa.Function) (pkgPath, key string) {
 	if fn.Pkg != nil {
 		pkgPath = fn.Pkg.Pkg.Path()
@@ -91,6 +130,7 @@ func funcKey(fn *ssa.Function) (pkgPath, key string) {
 func (x *Executor) callStatic(fr *Frame, st *State, reach string, callee *ssa.Function, bind, args []Val, resTy types.Type) Val {
 	u := x.u
 	name := callee.String()
+	x.atCallObligations(fr, st, reach, callee, args)
 	if callee.Name() == "ssa:deferstack" || strings.HasPrefix(callee.Name(), "ssa:") {
 		return Val{T: "0", Ty: resTy}
 	}
